@@ -110,6 +110,13 @@ where
     }
 }
 
+#[cfg(bma400_verif)]
+impl TapConfig {
+    pub(crate) fn verif_visit(&mut self, f: &mut dyn FnMut(u8, u8) -> Option<u8>) {
+        verif_visit_fields!(self, f, tap_config0: TapConfig0, tap_config1: TapConfig1);
+    }
+}
+
 #[cfg(test)]
 mod tests {
     use super::*;
